@@ -33,6 +33,11 @@ type HarnessCfg struct {
 	Race       bool // native replay binary is built with -race
 	NoReplay   bool
 	ReplayRuns int
+	// ConfirmBounds: a path that exhausts the unwinding / call-depth / step
+	// bound is replayed natively; when the real code dies there too (stack
+	// overflow, time-out, fatal error) it is reported as a violation, else
+	// the path stays inconclusive.
+	ConfirmBounds bool
 	Tiers      string // "", "quick", "thorough": restrict harness to a tier
 	Note       string
 }
@@ -74,6 +79,8 @@ func parseHarnessCfgs(src string, tier string, into map[string]*HarnessCfg) {
 				c.NoReplay = true
 			case "race":
 				c.Race = true
+			case "confirmbounds":
+				c.ConfirmBounds = true
 			case "replayruns":
 				c.ReplayRuns = n
 			case "tier":
@@ -153,6 +160,7 @@ type harnessResult struct {
 	newViol     []sym.Outcome
 	known       map[string][]sym.Outcome
 	okSamples   []sym.Outcome
+	boundOut    []sym.Outcome
 	okSeen      int
 }
 
@@ -341,6 +349,10 @@ func explore(P *sym.Program, name string, base sym.Config, hc *HarnessCfg, regio
 						}
 					} else if len(res.newViol) < 50 {
 						res.newViol = append(res.newViol, out)
+					}
+				case "unwind", "steps":
+					if len(res.boundOut) < 6 {
+						res.boundOut = append(res.boundOut, out)
 					}
 				case "ok":
 					// reservoir sample of ok paths for native cross-validation
